@@ -87,12 +87,15 @@ pub struct NCfg {
     pub start_peer_id: u32,
     /// the application may leave connection requests undecided for any number of steps
     pub defer: bool,
+    /// how often the 32-bit peer id counter may come round to the smallest live peer id
+    /// (what 2^32 - k connect/ignore pairs from other addresses do to it)
+    pub wraps: u8,
 }
 
 impl NCfg {
     pub fn label(&self) -> String {
         format!(
-            "net accepting={} addrs{} rsend{} nsend{} drops{} adv{} garbage{} nconn{} disc{} cap{} pid0={} defer={}",
+            "net accepting={} addrs{} rsend{} nsend{} drops{} adv{} garbage{} nconn{} disc{} cap{} pid0={} defer={} wraps={}",
             self.accepting,
             self.addrs,
             self.remote_sends,
@@ -104,7 +107,8 @@ impl NCfg {
             self.disconnects,
             self.cap,
             self.start_peer_id,
-            self.defer
+            self.defer,
+            self.wraps
         )
     }
 }
@@ -135,6 +139,8 @@ pub enum NAct {
     NetDisconnect(Addr),
     /// the application decides about a pending peer it left undecided
     NetDecide(Addr, Policy),
+    /// the peer id counter has come round: the next id it hands out is the smallest live one
+    CounterWrap,
     Advance,
     NetTick,
     RemoteTick(Addr),
@@ -184,6 +190,7 @@ pub struct NBudgets {
     pub garbage: u8,
     pub net_connects: u8,
     pub disconnects: u8,
+    pub wraps: u8,
 }
 
 pub struct NSt {
@@ -338,6 +345,7 @@ impl NetM {
                 garbage: cfg.garbage,
                 net_connects: cfg.net_connects,
                 disconnects: cfg.disconnects,
+                wraps: cfg.wraps,
             },
             nserial: [0; 4],
             rserial: [0; 4],
@@ -720,6 +728,15 @@ impl NetM {
                 Self::push_sorted(&mut s.to_net, (a, GARBAGE[k as usize].1.to_vec()));
                 None
             }
+            NAct::CounterWrap => {
+                s.b.wraps -= 1;
+                let lowest = s.view.peers.iter().map(|p| p.pid).min().expect("a live peer");
+                let (_, out) = self.net_call(s, 0, |n, _| {
+                    n.verif_set_next_peer_id(lowest);
+                    vec![]
+                });
+                self.expect_same("counter-wrap", vec![], vec![], out, vec![], true)
+            }
             NAct::Advance => {
                 s.b.advances -= 1;
                 let mut best: Option<u64> = None;
@@ -1041,6 +1058,9 @@ impl Model for NetM {
             } else if s.b.net_connects > 0 && s.rviews[au].state == 0 {
                 out.push(NAct::NetConnect(a));
             }
+        }
+        if s.b.wraps > 0 && s.view.peers.len() >= 2 && s.view.next_peer_id != s.view.peers.iter().map(|p| p.pid).min().unwrap() {
+            out.push(NAct::CounterWrap);
         }
         if let Some(t) = s.net.needs_tick().to_opt() {
             if t.as_usecs_since_epoch() <= s.now {
